@@ -83,8 +83,19 @@ def peel_ok(F, R, body=None):
                     v2 = trees(ctx, ctx.org.operand(qt["args"][0]))
                     if v2 == vec and qbi in reach_strict(b, ebi) and pbi not in reach_strict(b, qbi):
                         c_ok = True
+        # every way from the pop to a return goes through that encoder call (no early exit that
+        # leaves the peeled byte un-emitted)
+        if b_ok:
+            feeding = {ebi for (ebi, et) in encs if ebi in reach_strict(b, pbi) and
+                       contains_call(operand_tree(ctx, et["args"][1]) if len(et["args"]) > 1 else ("opaque", "?"),
+                                     ("Vec", "pop"), vec)}
+            tgt = pt["target"]
+            if tgt is not None and b.can_return_avoiding(feeding, frm=tgt):
+                b_ok = False
         R.check("R-PEEL", b.label(), b_ok, construct="popped byte re-presented to the encoder",
-                where="%s:%s" % (b.file, pt["line"]), detail="")
+                where="%s:%s" % (b.file, pt["line"]),
+                detail="on every path from the pop to an exit" if b_ok else
+                "some path from the pop reaches an exit without handing the byte to the encoder")
         R.check("R-PEEL", b.label(), c_ok, construct="encoder output re-emitted onto the same vector",
                 where=b.where(), detail="%d Vec::push sites" % len(pushes))
         ok_all = ok_all and a_ok and b_ok and c_ok
@@ -361,3 +372,58 @@ def r_noheap_until_spill(F, R, cat=None):
             R.check("R-NOHEAP", b.label(), ok, construct="reserve gives the spill list capacity only after a spill",
                     where=b.where(), detail="; ".join(why) or "guarded")
     R.floor("R-NOHEAP", "with_capacity/reserve of stride-first containers", n, 2)
+
+
+def r_reject_stored(F, R, cat=None):
+    """whenever a two-level container offers a value to its Stride and the Stride rejects it, that
+    same value is stored in the spill list (no value is dropped at the representation switch)"""
+    from core import all_ctxs
+    cat = cat or Catalogue(F)
+    n = 0
+    for top in F.bodies.values():
+        if top.kind != "AssocFn" or top.in_tests() or top.self_adt != "impls::index::IndexOptimized":
+            continue
+        for ctx in all_ctxs(F, top):
+            b = ctx.body
+            for (bi, t) in b.calls():
+                if callee_tag(t.get("callee")) != ("Stride", "push") or len(t["args"]) < 2:
+                    continue
+                n += 1
+                R.saw(top)
+                item = operand_tree(ctx, t["args"][1])
+                stores = set()
+                for (qbi, qt) in b.calls():
+                    if callee_tag(qt.get("callee")) in (("IndexList", "push"), ("IndexContainer", "push")) and len(qt["args"]) >= 2:
+                        recv = operand_tree(ctx, qt["args"][0])
+                        if recv[0] == "place" and recv[3][-1:] == ("f:spilled",) and operand_tree(ctx, qt["args"][1]) == item:
+                            stores.add(qbi)
+                # the branch on this call's result: from its "rejected" edge every path to an exit
+                # must store the same value in the spill list
+                starts = []
+                for sbi in sorted(b.live_blocks()):
+                    st = b.term(sbi)
+                    if st["k"] != "switch":
+                        continue
+                    cond = operand_tree(ctx, st["discr"])
+                    neg = False
+                    while cond[0] == "un" and cond[1] == "Not":
+                        cond = cond[2]
+                        neg = not neg
+                    members = cond[1] if cond[0] == "phi" else (cond,)
+                    if not any(m[0] == "call" and m[1] == ("Stride", "push") and m[4] == bi for m in members):
+                        continue
+                    for (v, tgt) in st["arms"]:
+                        if (v == "0") != neg:
+                            starts.append(tgt)
+                    if all(v != ("1" if neg else "0") for (v, _) in st["arms"]):
+                        starts.append(st["otherwise"])
+                if not starts:
+                    ok = False
+                    detail = "the result of Stride::push is not branched on here: a rejected value is dropped"
+                else:
+                    ok = all(not b.can_return_avoiding(stores, frm=s0) for s0 in starts)
+                    detail = "from the rejected edge every path stores the value in the spill list: %s" % ok
+                R.check("R-GUARD", top.label(), ok,
+                        construct="a value the stride rejects is stored in the spill list",
+                        where="%s:%s" % (b.file, t["line"]), detail=detail)
+    R.floor("R-GUARD", "Stride::push call sites in IndexOptimized", n, 1)
